@@ -24,6 +24,13 @@ type HeadCall struct {
 	Digest string // hex, "" on error
 }
 
+// TagCall records one Tags request and its answer.
+type TagCall struct {
+	TaskID int
+	Repo   string
+	Tags   []string
+}
+
 // Registry implements xpkg.Fetcher.
 type Registry struct {
 	Sim    *sim.Sim
@@ -34,6 +41,8 @@ type Registry struct {
 	// Images maps a digest hex to an image.
 	Images map[string]ociv1.Image
 	Heads  []HeadCall
+	// TagLists records what each Tags call returned.
+	TagLists []TagCall
 	Fetches []HeadCall
 }
 
@@ -122,7 +131,9 @@ func (r *Registry) Tags(ctx context.Context, ref name.Reference, _ ...string) ([
 	if _, err := r.yield(ctx, "tags", ref.Context().Name()); err != nil {
 		return nil, err
 	}
-	return r.ListTags(ref.Context().Name()), nil
+	tags := r.ListTags(ref.Context().Name())
+	r.TagLists = append(r.TagLists, TagCall{TaskID: taskID(ctx), Repo: ref.Context().Name(), Tags: tags})
+	return tags, nil
 }
 
 // ListTags lists the tags of a repository (lexicographic order).
